@@ -1,7 +1,7 @@
 CONSTANTS
   Alphabet <- MCAlphabet
   Literals <- MCLiterals
-  MaxLen = 4
+  MaxLen = 5
 SPECIFICATION MCSpec
 INVARIANTS RoundTrip EscapedIsOneLine IndexOK EmitCases
 CHECK_DEADLOCK FALSE
